@@ -261,6 +261,69 @@ Section Prune.
       lia.
   Qed.
 
+  (** exactness: what is removed is exactly the [len - (max-1)] oldest of the appender's files (nothing when there
+      are fewer than [max]) - no more than needed - and every other entry stays *)
+  Lemma filter_filter_length {A} (p q : A -> bool) l :
+    (length (filter q (filter p l)) + length (filter q (filter (fun x => negb (p x)) l)) = length (filter q l))%nat.
+  Proof.
+    induction l as [|a l IH]; simpl; auto. destruct (p a); simpl; destruct (q a); simpl; lia.
+  Qed.
+
+  Lemma NoDup_firstn {A} n (l : list A) : NoDup l -> NoDup (firstn n l).
+  Proof.
+    revert n. induction l as [|a l IH]; intros n H; destruct n; simpl; try constructor.
+    - inversion H; subst. intro Hin. apply H2. apply (in_firstn' n l a Hin).
+    - inversion H; subst. apply IH; auto.
+  Qed.
+
+  Lemma victims_nodup m d : NoDup (map fname d) -> NoDup (victims m d).
+  Proof.
+    intros ND. unfold victims. apply NoDup_firstn.
+    apply (Permutation_NoDup (Permutation_sym (sort_perm _))). apply NoDup_filter. apply (NoDup_map_inv fname). exact ND.
+  Qed.
+
+  Lemma removed_iff_victim m d f : NoDup (map fname d) ->
+    (In f d /\ mem (fname f) (map fname (victims m d)) = true) <-> In f (victims m d).
+  Proof.
+    intros ND. split.
+    - intros [Hd Hm]. apply mem_iff in Hm. apply in_map_iff in Hm. destruct Hm as [x [E Hx]].
+      destruct (victims_in_matching _ _ _ Hx) as [Hxd _].
+      assert (x = f) by (apply (nodup_map_inj fname d x f ND Hxd Hd E)). subst; auto.
+    - intros H. destruct (victims_in_matching _ _ _ H) as [Hd _]. split; auto. apply mem_iff. apply in_map. exact H.
+  Qed.
+
+  Lemma prune_exact m d : (1 <= m)%nat -> NoDup (map fname d) ->
+    let len := length (filter mt d) in
+    let k := if (len <? m)%nat then 0%nat else (len - (m - 1))%nat in
+    Permutation (snd (prune c m d)) (firstn k (sort_by_created (filter mt d))) /\
+    length (snd (prune c m d)) = k /\
+    length (filter mt (fst (prune c m d))) = (len - k)%nat /\
+    (forall f, In f d -> mt f = false -> In f (fst (prune c m d))).
+  Proof.
+    intros Hm ND len k. subst len k. rewrite prune_unfold. destruct (length (filter mt d) <? m)%nat eqn:E; simpl.
+    - repeat split; auto. lia.
+    - apply Nat.ltb_ge in E. set (ms := filter mt d) in *. set (k := (length ms - (m - 1))%nat).
+      set (P := fun f => mem (fname f) (map fname (victims m d))).
+      assert (HV : victims m d = firstn k (sort_by_created ms)) by reflexivity.
+      assert (HP : Permutation (filter P d) (firstn k (sort_by_created ms))).
+      { rewrite <- HV. apply NoDup_Permutation.
+        - apply NoDup_filter. apply (NoDup_map_inv fname). exact ND.
+        - apply victims_nodup; auto.
+        - intros f. rewrite filter_In. apply removed_iff_victim; auto. }
+      assert (HL : length (filter P d) = k).
+      { rewrite (Permutation_length HP), firstn_length, (Permutation_length (sort_perm ms)). lia. }
+      split; [exact HP|split; [exact HL|split]].
+      + pose proof (filter_filter_length P mt d) as HS. fold ms in HS.
+        assert (HA : filter mt (filter P d) = filter P d).
+        { apply filter_all_true. intros a Ha. apply filter_In in Ha. destruct Ha as [Hd Hp].
+          apply (victims_in_matching m d). apply removed_iff_victim; auto. }
+        rewrite HA, HL in HS. unfold P in HS. fold ms. lia.
+      + intros f Hf Hnm. apply filter_In. split; auto. apply negb_true_iff.
+        destruct (mem (fname f) (map fname (victims m d))) eqn:Em; auto.
+        assert (In f (victims m d)) by (apply removed_iff_victim; auto).
+        destruct (victims_in_matching _ _ _ H) as [_ Hmt]. congruence.
+  Qed.
+
   (** for every name, the file of that name is either kept or moved to the removed list, unchanged *)
   Lemma prune_filter_name m d n : NoDup (map fname d) ->
     filter (has_name n) (snd (prune c m d)) ++ filter (has_name n) (fst (prune c m d)) = filter (has_name n) d.
